@@ -27,12 +27,12 @@ inductive LoadError where
   | checksum      -- "Checksum mismatch"
   deriving DecidableEq, Repr
 
-/-- Outcome of `load`: the payload, an `Err(..)`, or a panic (`8 + 8 + 32 + data_len` overflows `usize` in the
-    dev profile when the length field is ≥ 2^64 - 48; no single-bit flip of a real file reaches that). -/
+/-- Outcome of `load`: the payload or an `Err(..)`.  (Before the fix `C14-load-length-overflow` the length check was
+    `data.len() != 8 + 8 + 32 + data_len`, which panicked in the dev profile for a length field ≥ 2^64 - 48; the code now
+    compares `data.len() - 48` with the field, which cannot overflow because `data.len() ≥ 48` was checked first.) -/
 inductive Loaded where
   | ok (d : List UInt8)
   | err (e : LoadError)
-  | overflowPanic
   deriving DecidableEq, Repr
 
 /-- `load`, with the checks in the order the Rust performs them. -/
@@ -41,9 +41,15 @@ def unwrap (H : List UInt8 → List UInt8) (b : List UInt8) : Loaded :=
   else if fromBe (b.take 8) ≠ 0 then .err .version
   else
     let dataLen := fromBe ((b.drop 8).take 8)
-    if 48 + dataLen ≥ 2 ^ 64 then .overflowPanic
-    else if b.length ≠ 48 + dataLen then .err .length
+    if b.length - 48 ≠ dataLen then .err .length
     else if (b.drop 16).take 32 ≠ H (b.drop 48) then .err .checksum
     else .ok (b.drop 48)
+
+/-- Bit `j` of a byte, most significant first (`0x80 >> j`). -/
+def bitMask (j : Fin 8) : UInt8 := UInt8.ofNat (2 ^ (7 - j.val))
+
+/-- The file with bit `i` inverted (bit 0 = most significant bit of byte 0); unchanged when `i` is past the end. -/
+def flipBit (b : List UInt8) (i : Nat) : List UInt8 :=
+  b.set (i / 8) (b.getD (i / 8) 0 ^^^ bitMask ⟨i % 8, Nat.mod_lt _ (by decide)⟩)
 
 end LM.Envelope
